@@ -555,7 +555,7 @@ func (g *Genome) mateSinglePoint(og *Genome, genomeId int) (*Genome, error) {
 				skip = true
 			}
 		}
-		if chosenGene == nil {
+		if chosenGene == nil && !skip {
 			// no gene was chosen - no need to process further - exit cycle
 			break
 		}
